@@ -546,6 +546,15 @@ func (g *gen) opAddAllowed(a *MAuction) Op {
 		op.Entries[g.r.Intn(len(op.Entries))].Upper = true
 		g.intents["upper_case_allow_list_entry"]++
 	}
+	if g.chance(0.04) {
+		// the same account twice in one call, under the other spelling and with another cap: entries are
+		// stored in list order, the later one stands
+		dup := op.Entries[g.r.Intn(len(op.Entries))]
+		dup.Upper = !dup.Upper
+		dup.Max = g.capFor(a).String()
+		op.Entries = append(op.Entries, dup)
+		g.intents["allow_list_duplicate_account"]++
+	}
 	if g.p.Name == "crowd" && len(a.Allowed) < 100 && g.chance(0.5) {
 		// more than a hundred entries on one allow-list: outsiders (well-formed addresses of nobody in the
 		// run) around the actors, so that whatever reads "the allow-list of the auction" must read all of it
